@@ -126,14 +126,14 @@ def _judge_file(hdr, e, o):
     return None
 
 
-def files(ck, binary, pathset, r, extra, backend="node"):
+def files(ck, binary, pathset, r, extra, backend="node", locks=False):
     hdr = next(x for x in r.printed if "paths" in x)
     edges = [x for x in r.printed if "op" in x]
     if ck.replay is not None:
         walk = ck.replay["walk"]
     else:
         walk = _walk(edges, ck.rng, extra)
-    lines = [{"paths": hdr["paths"], "dirs": hdr["dirs"], "vals": VALS}] + [e["op"] for e in walk]
+    lines = [{"paths": hdr["paths"], "dirs": hdr["dirs"], "vals": VALS, "locks": locks}] + [e["op"] for e in walk]
     recs = ck.drive(binary, ["files", backend, "2"], input_lines=lines, timeout=600)
     byi = {x["i"]: x["o"] for x in recs if "i" in x}
     if len(byi) != len(lines):
@@ -149,8 +149,8 @@ def files(ck, binary, pathset, r, extra, backend="node"):
         bad = _judge_file(hdr, e, o)
         if bad:
             ck.violation("C49:%s:%s" % (e["op"]["k"], bad[0]),
-                         "%s; keys=%s backend=%s step %d of a walk over the file-store state graph" % (bad[1], pathset, backend, i),
-                         {"kind": "files", "pathset": pathset, "backend": backend, "walk": _short(edges, e), "note": "stores that build the state, then the failing operation"})
+                         "%s; keys=%s backend=%s%s step %d of a walk over the file-store state graph" % (bad[1], pathset, backend, ", locks held on the key / directory names by another instance" if locks else "", i),
+                         {"kind": "files", "pathset": pathset, "backend": backend, "locks": locks, "walk": _short(edges, e), "note": "stores that build the state, then the failing operation"})
     ck.traces += 1
     ck.extra["file_edges_%s" % pathset] = len(edges)
     ck.extra["file_edges_taken_%s" % pathset] = len(taken)
@@ -244,7 +244,7 @@ def run(ck):
     ck.rule = ("files: TLC enumerates the whole state graph of the file store (3 keys with a shared directory prefix, 2 values, 2 instances; thorough: "
                "5 keys) and prints every edge (operation, result); a walk that takes every edge, followed by seeded random steps, is executed on real "
                "ChordStorage instances over a single-node DHT and every returned value/error/listing plus the full store content after each step is "
-               "compared; a second key set has a sibling directory whose name extends the listed one, a third a name that is a key and a directory at once.  locks: TLC checks Mutex of the lease model, "
+               "compared; a second key set has a sibling directory whose name extends the listed one, a third a name that is a key and a directory at once; the first walk is repeated while another instance holds locks on every key name, directory name and a name inside every directory.  locks: TLC checks Mutex of the lease model, "
                "seeded behaviours (request/acquire/release/abandon, 2 instances, 2 lock names) plus three directed ones run with the real clock and 1 s "
                "leases; recorded hold intervals are judged by TLC (NoOverlap).  non-trivial = operation on a non-empty store / behaviour with contention")
     ck.assumptions += ["values are non-empty (an empty value is 'absent' by the KV contract, DESIGN 4.0)",
@@ -258,7 +258,7 @@ def run(ck):
             locks(ck, binary, [ck.replay["steps"]], ck.replay.get("backend", "node"))
         else:
             r = ck.tlc("CertStore", "_c49_f.cfg", files={"_c49_f.cfg": _cfg("files", ck.replay["pathset"])}, workers=2)
-            files(ck, binary, ck.replay["pathset"], r, 0, ck.replay.get("backend", "node"))
+            files(ck, binary, ck.replay["pathset"], r, 0, ck.replay.get("backend", "node"), locks=ck.replay.get("locks", False))
         return
     sdir = ck.path("spec")
     if not os.path.isdir(sdir):
@@ -283,6 +283,7 @@ def run(ck):
     files(ck, binary, "shared", r_shared, 3000 if ck.thorough else 1500)
     files(ck, binary, "sibling", r_sib, 200)
     files(ck, binary, "filedir", f_fd.result(), 300)
+    files(ck, binary, "shared", r_shared, 200, locks=True)       # the file store is the same while locks are held on names around the keys
     if r_deep:
         files(ck, binary, "deep", r_deep, 20000)
         files(ck, binary, "shared", r_shared, 1500, backend="memory")
